@@ -6,6 +6,7 @@ Require Import LV.Base.CField LV.Base.QcI.
 Require Import LV.SelfCal.WeightModel LV.SelfCal.WeightProofs LV.SelfCal.WeightQI.
 Require Import LV.SelfCal.LsqModel LV.SelfCal.LsqProofs LV.SelfCal.LsqLinkModel LV.SelfCal.LsqLinkProofs.
 Require Import LV.SelfCal.GuardModel LV.SelfCal.GuardProofs.
+Require Import LV.SelfCal.C18MErrorModel LV.SelfCal.C18MErrorProofs.
 
 (* ---- the weight of every equation is the one computed from its own measurement ----
    These theorems are about INDEX ALIGNMENT: which measurement w_vector[i] was computed from and
@@ -60,6 +61,54 @@ Theorem weights_aligned_instance_thm :
 Proof. exact weights_aligned_instance. Qed.
 Print Assumptions weights_aligned_instance_thm.
 
+(* ---- w_offset as the loop of _vnacal_new_solve_simple computes it: advanced by every system's OWN
+        equation count (the column systems of a UE14 / E12 calibration may differ in size) ---- *)
+Theorem weights_aligned_loop_thm : forall (M R : Type) (wt : M -> R) (r0 : R) (m0 : M)
+  (sys : systems M) (s e : nat),
+  (s < length sys)%nat -> (e < length (nth s sys []))%nat ->
+  weight_simple_loop M R wt r0 sys s e = own_weight M R wt m0 sys s e.
+Proof. exact weights_aligned_loop. Qed.
+Print Assumptions weights_aligned_loop_thm.
+
+Theorem running_offsets_thm : forall (M : Type) (sys : systems M) (k s : nat),
+  (s < length sys)%nat -> nth s (running_offsets M k sys) 0%nat = (k + offset_of M sys s)%nat.
+Proof. exact running_offsets_nth. Qed.
+Print Assumptions running_offsets_thm.
+
+(* the closed form "sindex * equations" is right exactly when the earlier systems hold s times the
+   count of system s; in particular for equally sized systems (which is all the library's own
+   tests use) *)
+Theorem closed_form_iff_thm : forall (M : Type) (sys : systems M) (s e : nat),
+  simple_index_closed M sys s e = simple_index M true sys s e <->
+  offset_of M sys s = (s * length (nth s sys []))%nat.
+Proof. exact closed_form_iff. Qed.
+Print Assumptions closed_form_iff_thm.
+
+Theorem closed_form_equal_sizes_thm : forall (M : Type) (L : nat) (sys : systems M) (s e : nat),
+  (forall q, In q sys -> length q = L) -> (s < length sys)%nat ->
+  simple_index_closed M sys s e = simple_index M true sys s e.
+Proof. exact closed_form_equal_sizes. Qed.
+Print Assumptions closed_form_equal_sizes_thm.
+
+(* model variant: with unequal systems the closed form gives an equation another equation's weight,
+   or reads beyond the end of the vector, where the loop form is aligned *)
+Theorem closed_form_offset_refuted_thm :
+  (exists sys s e, (s < length sys)%nat /\ (e < length (nth s sys []))%nat /\
+                   w_closed sys s e <> w_own sys s e /\ w_loop sys s e = w_own sys s e) /\
+  (exists sys s e, (s < length sys)%nat /\ (e < length (nth s sys []))%nat /\
+                   (length (calc_weights nat nat S 0%nat false sys) <= simple_index_closed nat sys s e)%nat /\
+                   w_loop sys s e = w_own sys s e).
+Proof. exact closed_form_offset_refuted. Qed.
+Print Assumptions closed_form_offset_refuted_thm.
+
+Theorem weights_aligned_loop_instance_thm :
+  let sys := [[1; 2; 3; 4; 5]; [6; 7; 8; 9]; [10; 11; 12; 13; 14; 15]]%nat in
+  forallb (fun s => forallb (fun e => Nat.eqb (w_loop sys s e) (w_own sys s e))
+                            (seq 0 (length (nth s sys [])))) (seq 0 (length sys)) = true /\
+  running_offsets nat 0 sys = [0; 5; 9]%nat.
+Proof. exact weights_aligned_loop_instance. Qed.
+Print Assumptions weights_aligned_loop_instance_thm.
+
 (* ---- degrees of freedom and the verdict ---- *)
 Theorem dof_count_thm : forall (unknowns : Z) (eq_counts leak_counts : list Z),
   dof unknowns eq_counts leak_counts =
@@ -75,6 +124,53 @@ Print Assumptions dof_exactly_determined_thm.
 Theorem dof_instances_thm : dof 7 [16%Z] [] = 18%Z /\ dof 5 [8; 8]%Z [4; 4]%Z = 24%Z.
 Proof. exact dof_instances. Qed.
 Print Assumptions dof_instances_thm.
+
+(* leakage cells with 0, 1 or more samples ("if (ltp->vnlt_count > 1)"): at most one sample adds
+   nothing, more add 2 (n - 1); the cells never take degrees of freedom away *)
+Theorem leak_term_cases_thm : forall n : Z,
+  ((n <= 1)%Z -> leak_term n = 0%Z) /\ ((1 < n)%Z -> leak_term n = (2 * (n - 1))%Z).
+Proof. exact leak_term_cases. Qed.
+Print Assumptions leak_term_cases_thm.
+
+Theorem dof_leakage_never_subtracts_thm : forall (unknowns : Z) (eq_counts leak_counts : list Z),
+  (dof_systems unknowns eq_counts <= dof unknowns eq_counts leak_counts)%Z.
+Proof. exact dof_leakage_never_subtracts. Qed.
+Print Assumptions dof_leakage_never_subtracts_thm.
+
+(* vnlt_count = number of standards that measured the cell and have no path between its ports *)
+Theorem leak_count_thm : forall stds : list (bool * bool),
+  leak_count stds = Z.of_nat (length (filter is_sample stds)).
+Proof. exact leak_count_spec. Qed.
+Print Assumptions leak_count_thm.
+
+(* every standard connects every pair of ports: no leakage samples, df is that of the systems *)
+Theorem dof_all_connected_thm : forall (unknowns : Z) (eq_counts : list Z) (cells : list (list (bool * bool))),
+  (forall c, In c cells -> forall gc, In gc c -> snd gc = true) ->
+  dof_of_standards unknowns eq_counts cells =
+  (2 * (zsum eq_counts - Z.of_nat (length eq_counts) * unknowns))%Z.
+Proof. exact dof_all_connected. Qed.
+Print Assumptions dof_all_connected_thm.
+
+Theorem exactly_determined_all_connected_never_rejected_thm : forall (tail : Z -> Qc -> Qc) (unknowns : Z)
+  (k : nat) (cells : list (list (bool * bool))) (chisq limit : Qc),
+  (forall c, In c cells -> forall gc, In gc c -> snd gc = true) -> (limit <= 1)%Qc ->
+  dof_of_standards unknowns (repeat unknowns k) cells = 0%Z /\
+  rejected (pvalue_of tail (dof_of_standards unknowns (repeat unknowns k) cells) chisq) limit = false.
+Proof. exact exactly_determined_all_connected_never_rejected. Qed.
+Print Assumptions exactly_determined_all_connected_never_rejected_thm.
+
+(* instances (0, 1, 3 samples) and the unguarded model variant, which subtracts 2 per empty cell *)
+Theorem dof_leak_instances_thm :
+  dof 5 [7; 7]%Z [0; 0]%Z = 8%Z /\ dof 5 [7; 7]%Z [1; 1]%Z = 8%Z /\ dof 5 [7; 7]%Z [3; 0]%Z = 12%Z /\
+  dof_of_standards 5 [7; 7]%Z [[(true, true); (true, true)]; [(true, false); (false, false); (true, true)]] = 8%Z /\
+  dof_leakage_unguarded [0; 0]%Z (dof_systems 5 [7; 7]%Z) = 4%Z.
+Proof. exact dof_leak_instances. Qed.
+Print Assumptions dof_leak_instances_thm.
+
+Theorem dof_leakage_unguarded_thm : forall (l : list Z) (acc : Z),
+  dof_leakage_unguarded l acc = (acc + 2 * zsum l - 2 * Z.of_nat (length l))%Z.
+Proof. exact dof_leakage_unguarded_acc. Qed.
+Print Assumptions dof_leakage_unguarded_thm.
 
 (* "if (df < 1) return 1.0;" (1.0 since fix D59): an exactly determined calibration has p-value 1
    and is not rejected at any admissible limit (0 < limit <= 1), whatever the chi-square tail
@@ -204,3 +300,81 @@ Theorem v_matrices_instance_thm :
   restore_v_matrices nat 2 2 now [1; 2; 3; 4; 5; 6; 7; 7; 7; 7; 7; 7]%nat = MOk saved.
 Proof. exact v_matrices_instance. Qed.
 Print Assumptions v_matrices_instance_thm.
+
+(* ---- vnacal_new_set_m_error as a state machine over calls (C18MErrorModel.v) ----
+   One successful call, on any earlier state (no vector, or the vector left by any earlier call,
+   which the code reuses) and whatever malloc returned: the stored vector is what THIS call
+   declares; sigma_tr_vector == NULL stores a tracking term of zero. *)
+Theorem set_m_error_last_call_wins_thm : forall (R : Type) (r0 : R) (F : nat) (fresh : mvec R)
+  (st : option (mvec R)) (nf : list R) (tr : option (list R)),
+  state_wf R F st -> call_wf R F (fresh, MSet R nf tr) ->
+  set_m_error R r0 true fresh st (MSet R nf tr) = Some (declared R r0 F nf tr).
+Proof. exact set_m_error_last_call_wins. Qed.
+Print Assumptions set_m_error_last_call_wins_thm.
+
+(* histories: set with / without tracking vector, clear, rejected calls, in any order and number:
+   the state is that of the last call that was not rejected *)
+Theorem m_error_history_thm : forall (R : Type) (r0 : R) (F : nat) (h : list (mvec R * mcall R))
+  (st : option (mvec R)),
+  state_wf R F st -> Forall (call_wf R F) h ->
+  run R r0 true st h = last_effective R r0 F h st.
+Proof. exact run_last_effective. Qed.
+Print Assumptions m_error_history_thm.
+
+(* the stored noise / tracking vectors depend only on the last call: two different histories on two
+   different structures ending in the same call store the same vector *)
+Theorem m_error_depends_only_on_last_call_thm : forall (R : Type) (r0 : R) (F : nat)
+  (h1 h2 : list (mvec R * mcall R)) (st1 st2 : option (mvec R)) (fresh1 fresh2 : mvec R)
+  (nf : list R) (tr : option (list R)),
+  state_wf R F st1 -> state_wf R F st2 -> Forall (call_wf R F) h1 -> Forall (call_wf R F) h2 ->
+  call_wf R F (fresh1, MSet R nf tr) -> call_wf R F (fresh2, MSet R nf tr) ->
+  run R r0 true st1 (h1 ++ [(fresh1, MSet R nf tr)]) = Some (declared R r0 F nf tr) /\
+  run R r0 true st1 (h1 ++ [(fresh1, MSet R nf tr)]) = run R r0 true st2 (h2 ++ [(fresh2, MSet R nf tr)]).
+Proof. exact run_depends_only_on_last_call. Qed.
+Print Assumptions m_error_depends_only_on_last_call_thm.
+
+Theorem m_error_set_then_set_without_tracking_clears_thm : forall (R : Type) (r0 : R) (F : nat)
+  (fresh1 fresh2 : mvec R) (st : option (mvec R)) (nf1 tr1 nf2 : list R),
+  state_wf R F st -> call_wf R F (fresh1, MSet R nf1 (Some tr1)) -> call_wf R F (fresh2, MSet R nf2 None) ->
+  run R r0 true st [(fresh1, MSet R nf1 (Some tr1)); (fresh2, MSet R nf2 None)] = Some (combine nf2 (repeat r0 F)).
+Proof. exact set_then_set_without_tracking_clears. Qed.
+Print Assumptions m_error_set_then_set_without_tracking_clears_thm.
+
+Theorem m_error_clear_last_thm : forall (R : Type) (r0 : R) (h : list (mvec R * mcall R)) (st : option (mvec R))
+  (fresh : mvec R), run R r0 true st (h ++ [(fresh, MClear R)]) = None.
+Proof. exact run_clear_last. Qed.
+Print Assumptions m_error_clear_last_thm.
+
+Theorem m_error_invalid_last_thm : forall (R : Type) (r0 : R) (h : list (mvec R * mcall R)) (st : option (mvec R))
+  (fresh : mvec R), run R r0 true st (h ++ [(fresh, MInvalid R)]) = run R r0 true st h.
+Proof. exact run_invalid_last. Qed.
+Print Assumptions m_error_invalid_last_thm.
+
+(* the hypotheses are met by a history with every kind of call *)
+Theorem m_error_history_instance_thm :
+  let h := [([(91, 92); (93, 94)], MSet nat [1; 2] (Some [3; 4]));
+            ([], MInvalid nat);
+            ([(95, 96); (97, 98)], MSet nat [5; 6] None)]%nat in
+  Forall (call_wf nat 2) h /\
+  n_run true None h = Some [(5, 0); (6, 0)]%nat /\
+  n_run true None (h ++ [([], MClear nat); ([(81, 82); (83, 84)], MSet nat [7; 8] (Some [9; 10]))])%nat
+    = Some [(7, 9); (8, 10)]%nat.
+Proof. exact run_instance. Qed.
+Print Assumptions m_error_history_instance_thm.
+
+(* model variant without the "always init" loop (vector from calloc, reused): the tracking term of
+   an EARLIER call survives a later call with sigma_tr_vector == NULL; a single call agrees *)
+Theorem m_error_without_reinit_refuted_thm :
+  exists (F : nat) (h : list (mvec nat * mcall nat)),
+    Forall (call_wf nat F) h /\
+    Forall (fun fc => fst fc = repeat (0, 0)%nat F) h /\
+    n_run false None h <> last_effective nat 0%nat F h None /\
+    n_run false None h = Some [(5, 3)]%nat /\ last_effective nat 0%nat F h None = Some [(5, 0)]%nat.
+Proof. exact without_reinit_keeps_earlier_tracking_refuted. Qed.
+Print Assumptions m_error_without_reinit_refuted_thm.
+
+Theorem m_error_without_reinit_single_call_agrees_thm : forall (F : nat) (nf : list nat) (tr : option (list nat)),
+  call_wf nat F (repeat (0, 0)%nat F, MSet nat nf tr) ->
+  n_run false None [(repeat (0, 0)%nat F, MSet nat nf tr)] = n_run true None [(repeat (0, 0)%nat F, MSet nat nf tr)].
+Proof. exact without_reinit_single_call_agrees. Qed.
+Print Assumptions m_error_without_reinit_single_call_agrees_thm.
